@@ -7,6 +7,7 @@ from common import show_list, parse_list
 LEVEL = "proof"
 LEAN_PROPS = ["FastTicc.Props.C10", "FastTicc.Props.FrontEnd"]
 LEAN_HELPERS = ["FastTicc.Proofs.Stack"]
+LEAN_TRANSLATED = {"FastTicc.Props.TrSplit": ["split_joint_labels"], "FastTicc.Props.TrPad": ["pad_missing_labels"]}
 RULE = ("random series with T in [W, W+40], W in [1,12], N in [1,6], 1..6 series; cells are random 64-bit patterns "
         "viewed as float64 (NaN payloads, inf, -0.0) compared as integers; C/Fortran order, float32/int inputs "
         "(value-exact widening); non-trivial = W>=2 and at least 2 stacked rows; distinct by content hash")
@@ -83,6 +84,7 @@ def run(ctx):
     outs = dict(zip(meta, ctx.driver.run(lines)))
 
     lab_lines, lab_meta = [], []
+    gen_stack, gen_split = [], []
     for ci, c in enumerate(cases):
         W, N = c["W"], c["N"]
         arrs = arrays[ci]
@@ -115,6 +117,8 @@ def run(ctx):
         # ---- correspondence
         got_single = show_list([[int(x) for x in row] for row in bits(single)], lambda r: show_list(r), ";")
         got_multi = show_list([[int(x) for x in row] for row in bits(multi)], lambda r: show_list(r), ";")
+        gen_stack.append((show_list([[int(x) for x in row] for row in bits(arrs[0])], lambda r: show_list(r), ";")
+                          + f" {W}", "ok " + got_single, c))
         if got_single != outs[(ci, "single")]:
             ctx.violation("correspondence-break", "stack vs stack_training_data", c)
         if got_multi != outs[(ci, "multi")]:
@@ -127,6 +131,7 @@ def run(ctx):
         if [len(p) for p in padded] != [a.shape[0] for a in arrs] or sum(split, []) != joint:
             ctx.violation("impl-violation", "split+pad does not restore one list per series of the original length",
                           c, {"site": "split-pad"})
+        gen_split.append((f"{show_list(joint)} {show_list(lens)}", "ok " + show_list(split, lambda r: show_list(r), ";"), c))
         lab_lines.append(f"splitpad {W} {show_list(lens)} {show_list(joint)}")
         lab_meta.append((ci, padded))
         rows = sum(lens)
@@ -138,6 +143,9 @@ def run(ctx):
         if out != show_list(padded, lambda r: show_list(r), ";"):
             ctx.violation("correspondence-break", "splitAndPad vs split_joint_labels+pad_missing_labels",
                           dict(cases[ci], model=out))
+    # the functions TRANSLATED from the source (Generated/Kernels.lean) on the same inputs
+    ctx.gen_compare("stack_training_data", [g for g in gen_stack if g[0].split(" ")[0] not in ("-", "")])
+    ctx.gen_compare("split_joint_labels", gen_split + [("0,1,2 2,2", "err AssertionError", {})])
     # the real code's length assertion
     if ctx.replay is None:
         try:
